@@ -5,8 +5,11 @@ both join orders, the data source being the table int1.t1 or a sub-select over i
 pin), model metadata with window 1..3 and 0..2 group columns, and 1..3 contents of t1 over time values {NULL, 1..5}.
 Oracle: the reference row set (vf/oracles/tsexec.reference, written from the statement) against the emitted fetch
 queries executed on sqlite3 through the own printer; validity predicate for ties at the window edge.  Rejected shapes
-(ORDER BY, GROUP BY, HAVING, OFFSET, filter that involves another column) must raise PlanningException while the same
-query without the offending element is planned.
+(ORDER BY, GROUP BY, HAVING, OFFSET, filter that involves another column - also inside CAST / CASE) must raise
+PlanningException while the same query without the offending element is planned.  Spellings of the same conditions:
+value in parentheses (`ts > (LATEST)`), LATEST as first operand, LIMIT 0, column names that contain a dot, and the
+order column not a bare operand (`CAST(ts AS int) >= 3`, `3 BETWEEN 2 AND ts`: a refusal is accepted there, a plan
+must hand over the rows of the equivalent plain condition).
 """
 import copy, sqlite3
 from hypothesis import strategies as st
@@ -18,10 +21,11 @@ from vf.props.c02 import site_of
 PROPERTY = 'C15'
 RULE = ('cases = (query, model metadata, 1..3 contents of int1.t1(id, ts, g, h, v)): SELECT * FROM data JOIN proj.tsm '
         '(either order; JOIN / LEFT JOIN / comma) WHERE conjunction of at most one condition on the order column ts '
-        '(>, >=, =, <, <=, BETWEEN, IN, > LATEST, = LATEST, none; operands optionally reversed) and 0..2 partition '
-        'filters (=, IN, ranges) on the model\'s group columns, optional LIMIT; window 1..3; group columns [], [g], [h], '
+        '(>, >=, =, <, <=, BETWEEN, IN, > LATEST, = LATEST, none; operands optionally reversed, value optionally in '
+        'parentheses, order column optionally inside CAST / as a bound of BETWEEN) and 0..2 partition '
+        'filters (=, IN, ranges) on the model\'s group columns, optional LIMIT (0..5); window 1..3; group columns [], [g], [h], '
         '[g,h]; data = table or sub-select with conditions inside / outside; rows over ts in {NULL,1..5}, g in {1,2} '
-        '(rarely NULL), h in {x,y}; plus rejected shapes.  A bounded part enumerates every operator x partition filter '
+        '(rarely NULL), h in {x,y}, column names optionally with a dot (ts.utc, my.grp); plus rejected shapes.  A bounded part enumerates every operator x partition filter '
         'x window x group columns x join order over three fixed tables.  non-trivial = accepted query for which some '
         'partition has more candidate context rows than the window / a tie at the window edge / fewer candidates than '
         'the window, or rows with NULL time exist; or a rejected shape whose base query (same query without the '
@@ -32,7 +36,9 @@ ASSUMPTIONS = ['step semantics (FetchDataframeStep, MultipleSteps union, MapRedu
                'sqlite3 evaluates the emitted fetch queries (printed by the own fully parenthesising printer)',
                'open where the statement is silent: NULL partition keys are not judged; for `ts = t` the output filter '
                '`ts > t` pinned by the repo tests is accepted; for `ts IN (...)` any context rows not newer than the '
-               'largest listed time are accepted; order of the handed rows is not judged']
+               'largest listed time are accepted; order of the handed rows is not judged; a condition in which the '
+               'order column is not a bare operand (inside CAST, as a bound of BETWEEN) may be refused with '
+               'PlanningException, and when it is planned only the presence of an output filter is judged, not its text']
 FLOORS = {'quick': {'__nontrivial__': 4000, 'accepted': 4500, 'reject': 1800, 'src:subselect': 1500, 'model:left': 2500,
                     'groups:0': 1000, 'groups:2': 2500, 'limit': 4000, 'window:3': 1900, 'letter-case-differs': 1500,
                     'time:between': 550, 'time:=latest': 550, 'time:>latest': 550, 'time:in': 550, 'time:=': 550,
@@ -42,7 +48,10 @@ FLOORS = {'quick': {'__nontrivial__': 4000, 'accepted': 4500, 'reject': 1800, 's
                     'data:more-candidates-than-window': 800, 'data:no-rows-before-bound': 900, 'data:null-time': 2200,
                     'reject:order-by': 50, 'reject:group-by': 50, 'reject:having': 50, 'reject:offset': 50,
                     'reject:other-col': 50, 'reject:other-col-rhs': 50, 'reject:other-col-in-list': 50,
-                    'reject:ungrouped-partition-col': 50},
+                    'reject:ungrouped-partition-col': 50, 'reject:other-col-cast': 50, 'reject:other-col-case': 50,
+                    'limit:0': 600, 'time-value:parenthesised': 400, 'time:latest-first-operand': 150,
+                    'time-form:cast': 150, 'time-form:between-3rd': 15, 'time-form:between-2nd': 15,
+                    'colname:dotted': 300},
           'thorough': {}}
 FLOORS['thorough'] = {k: 10 * v for k, v in FLOORS['quick'].items()}   # 12.5 x the random part of quick
 N = {'quick': 1200, 'thorough': 15000}
@@ -50,7 +59,7 @@ N = {'quick': 1200, 'thorough': 15000}
 TS_VALUES = [None, 1, 2, 3, 4, 5]
 CLAUSE_SHAPES = ['order-by', 'group-by', 'having', 'group-by+having', 'offset']
 WHERE_SHAPES = ['other-col', 'other-col-rhs', 'other-col-or', 'other-col-in-list', 'other-col-func',
-                'other-col-isnull', 'other-col-not', 'ungrouped-partition-col']
+                'other-col-isnull', 'other-col-not', 'ungrouped-partition-col', 'other-col-cast', 'other-col-case']
 VARIANTS = {
     'order-by': ['order by {A}ts', 'order by {A}ts desc', 'order by {A}v'],
     'group-by': ['group by {A}g', 'group by {A}ts'],
@@ -65,6 +74,11 @@ VARIANTS = {
     'other-col-isnull': ['{A}v is null', '{A}v is not null'],
     'other-col-not': ['not {A}v = 1'],
     'ungrouped-partition-col': ['{A}{U} = {UV}', '{A}{U} in ({UV})'],
+    # the other column sits inside a node that is not an operation (CAST / CASE), on either side / in a list
+    'other-col-cast': ['cast({A}v as int) = 1', '1 = cast({A}v as int)', 'cast({A}id as int) in (1, 2)',
+                       '{A}ts in (cast({A}v as int), 1)', '{A}ts between 1 and cast({A}v as int)'],
+    'other-col-case': ['case when {A}v = 1 then 1 else 0 end = 1', '{A}ts >= case when {A}v = 1 then 2 else 3 end',
+                       '{A}ts <= case {A}v when 1 then 2 else 3 end'],
 }
 
 
@@ -77,22 +91,40 @@ def lit(x):
     return "'" + x + "'" if isinstance(x, str) else repr(x)
 
 
-def cond_text(c, A, upper=False):
-    """SQL text of one time / partition condition; A = qualifier with trailing dot (or '')."""
+def real_name(case, name):
+    """Name of the canonical column ts / g / h in this case (`colnames` renames them, e.g. to names with a dot)."""
+    return (case.get('colnames') or {}).get(name, name)
+
+
+def cond_text(c, A, upper=False, names=None):
+    """SQL text of one time / partition condition; A = qualifier with trailing dot (or '').
+
+    Spellings of the same condition: `rev` = operands the other way round, `paren` = the value in parentheses
+    (`ts > (LATEST)`), `form` = the order column is not a bare operand of the comparison: 'cast' = CAST(ts AS int) op v,
+    'between-3rd' = `v BETWEEN v-1 AND ts` (= ts >= v), 'between-2nd' = `v BETWEEN ts AND v+1` (= ts <= v)."""
     name = 'ts' if c['kind'] == 'time' else c['col']
-    col = A + (name.upper() if upper else name)
+    name = (names or {}).get(name, name)
+    name = name.upper() if upper else name
+    col = A + ('`' + name + '`' if '.' in name else name)
     op, v = c['op'], c.get('v', [])
+    par = (lambda x: '(' + x + ')') if c.get('paren') else (lambda x: x)
+    form = c.get('form')
+    if form == 'cast':
+        return f'cast({col} as int) {op} {lit(v[0])}'
+    if form == 'between-3rd':
+        return f'{lit(v[0])} between {lit(v[0] - 1)} and {col}'
+    if form == 'between-2nd':
+        return f'{lit(v[0])} between {col} and {lit(v[0] + 1)}'
     if op == 'between':
         return f'{col} between {lit(v[0])} and {lit(v[1])}'
     if op == 'in':
         return f'{col} in ({", ".join(lit(x) for x in v)})'
-    if op == '>latest':
-        return f'{col} > LATEST'
-    if op == '=latest':
-        return f'{col} = LATEST'
+    if op in ('>latest', '=latest'):
+        o = op[0]
+        return f'{par("LATEST")} {tsexec.flip(o)} {col}' if c.get('rev') else f'{col} {o} {par("LATEST")}'
     if c.get('rev'):
-        return f'{lit(v[0])} {op} {col}'
-    return f'{col} {op} {lit(v[0])}'
+        return f'{par(lit(v[0]))} {op} {col}'
+    return f'{col} {op} {par(lit(v[0]))}'
 
 
 def conj(parts, nest):
@@ -115,7 +147,7 @@ def build_sql(case, with_reject=True):
     for c in case['conds']:
         at = c.get('at', 'outer') if sub else 'outer'
         (inner if at == 'inner' else outer).append(cond_text(c, inner_q if at == 'inner' else outer_q,
-                                                              case.get('upper_cols', False)))
+                                                              case.get('upper_cols', False), case.get('colnames')))
     tail_inner = tail_outer = ''
     if rej is not None:
         at = rej.get('at', 'outer') if sub else 'outer'
@@ -154,8 +186,9 @@ def build_sql(case, with_reject=True):
 
 def catalog(case):
     up = case.get('upper_meta')
-    info = {'timeseries': True, 'window': case['window'], 'order_by_column': 'TS' if up else 'ts',
-            'group_by_columns': [c.upper() if up else c for c in case['groups']]}
+    nm = lambda c: real_name(case, c).upper() if up else real_name(case, c)
+    info = {'timeseries': True, 'window': case['window'], 'order_by_column': nm('ts'),
+            'group_by_columns': [nm(c) for c in case['groups']]}
     if case.get('meta_form', 'list') == 'list':
         return dict(integrations=['int1'], default_namespace='mindsdb',
                     predictor_metadata=[dict(info, name='tsm', integration_name='proj')])
@@ -164,13 +197,13 @@ def catalog(case):
 
 
 # --------------------------------------------------------------------------------------------- the oracle
-def otf_norm(n):
+def otf_norm(n, tsname='ts'):
     """Qualifier-free normal form (op, values) of an output_time_filter node."""
     if n is None:
         return ('none', [])
 
     def is_col(x):
-        return tsexec.cname(x) == 'Identifier' and str(x.parts[-1]).lower() == 'ts'
+        return tsexec.cname(x) == 'Identifier' and str(x.parts[-1]).lower() == tsname
 
     def const(x):
         return tsexec.cname(x) == 'Constant'
@@ -205,7 +238,26 @@ def features_of(case):
         f.append('reject:' + rej['shape'])
         if sub:
             f.append('reject-at:' + rej.get('at', 'outer'))
+    f += spelling_tags(case)
     return sorted(set(f))
+
+
+def spelling_tags(case):
+    """Mechanism tags (features and classes): how the condition / limit / column names are spelled."""
+    f = []
+    time = next((x for x in case['conds'] if x['kind'] == 'time'), None)
+    if time is not None:
+        if time.get('paren'):
+            f.append('time-value:parenthesised')
+        if time.get('form'):
+            f.append('time-form:' + time['form'])
+        if time.get('rev') and time['op'] in ('>latest', '=latest'):
+            f.append('time:latest-first-operand')
+    if case.get('limit') == 0:
+        f.append('limit:0')
+    if case.get('colnames'):
+        f.append('colname:dotted')
+    return f
 
 
 def classes_of(case):
@@ -225,6 +277,7 @@ def classes_of(case):
         c.append('pf:none')
     if case.get('limit') is not None:
         c.append('limit')
+    c += spelling_tags(case)
     if case['source'] == 'subselect':
         ats = {x.get('at', 'outer') for x in case['conds']}
         c += ['sub:cond@' + a for a in sorted(ats)]
@@ -246,6 +299,9 @@ def judge(case, col):
     classes = classes_of(case)
     rej = case.get('reject')
     key = (sql, case['window'], case['groups'], case.get('upper_meta'), case.get('meta_form'), case['data'])
+    cnames = case.get('colnames') or {}
+    tsname = real_name(case, 'ts').lower()
+    real_groups = [real_name(case, g).lower() for g in case['groups']]
 
     time = next((c for c in case['conds'] if c['kind'] == 'time'), None)
     tfeats = ['time:' + (time['op'] if time else 'none')] + (['time:reversed-operands'] if time and time.get('rev') else [])
@@ -285,6 +341,11 @@ def judge(case, col):
     try:
         plan = plan_case(case, sql)
     except PlanningException as e:
+        if time is not None and time.get('form'):
+            # the order column is not a bare operand: outside the listed condition forms, a refusal is in order
+            # (handing over rows that are not those of the equivalent plain condition is not)
+            col.case(key, False, classes + ['refused-time-form'])
+            return []
         col.case(key, False, classes + ['refused'])
         return [rec('refused', site_of(e), f'PlanningException: {e}')]
     except Exception as e:
@@ -312,8 +373,12 @@ def judge(case, col):
     # dataflow after the data step: model <- data; join(data, model) in the user's order; limit after the join
     app, data = loc['apply'], loc['data']
     exp_f = tsexec.semantic_time(time)
-    got_f = otf_norm(app.output_time_filter)
-    if not (got_f == exp_f or (exp_f[0] == '=' and got_f == ('>', exp_f[1]))):
+    got_f = otf_norm(app.output_time_filter, tsname)
+    if time is not None and time.get('form'):
+        if app.output_time_filter is None:
+            out.append(rec('output-filter', 'output_time_filter',
+                           f'user condition {exp_f} (spelled {cond_text(time, "", False, cnames)}) but no output_time_filter'))
+    elif not (got_f == exp_f or (exp_f[0] == '=' and got_f == ('>', exp_f[1]))):
         out.append(rec('output-filter', 'output_time_filter',
                        f'user condition {exp_f} but output_time_filter is {app.output_time_filter!s} {got_f}'))
     jn = None
@@ -349,16 +414,16 @@ def judge(case, col):
     for di, rows in enumerate(case['data']):
         rows = [tuple(r) for r in rows]
         ref = tsexec.reference(rows, groups, pfs, time)
-        conn = engine.connect({(None, 't1'): (tsexec.COLS, rows)})
+        conn = engine.connect({(None, 't1'): ([refprint.qid(real_name(case, c)) for c in tsexec.COLS], rows)})
         ex = tsexec.Exec(conn)
         try:
             parts, names = ex.partitions(loc)
             if loc['part'] is not None:
                 lower = [str(n).lower() for n in names]
-                if sorted(lower) != sorted(groups):
+                if sorted(lower) != sorted(real_groups):
                     raise tsexec.ShapeError('partition-step', f'partition fetch returns columns {names}, '
-                                                              f'group columns are {groups}')
-                idx = [lower.index(g) for g in groups]
+                                                              f'group columns are {real_groups}')
+                idx = [lower.index(g) for g in real_groups]
                 parts = [(var, tuple(k[i] for i in idx)) for var, k in parts]
             obs_keys = [k for _, k in parts]
             exp_keys = list(ref)
@@ -432,12 +497,25 @@ def time_conds(draw):
     if op == 'none':
         return None
     if op in ('>latest', '=latest'):
-        return {'kind': 'time', 'op': op}
+        c = {'kind': 'time', 'op': op}
+        sp = draw(st.integers(0, 5))             # spellings: `ts > (LATEST)`, `LATEST < ts`, `(LATEST) < ts`
+        if sp in (0, 1):
+            c['paren'] = True
+        if sp in (1, 2):
+            c['rev'] = True
+        return c
     if op == 'between':
         return {'kind': 'time', 'op': op, 'v': [draw(t), draw(t)]}
     if op == 'in':
         return {'kind': 'time', 'op': op, 'v': draw(st.lists(st.integers(1, 5), min_size=1, max_size=3))}
-    return {'kind': 'time', 'op': op, 'v': [draw(t)], 'rev': draw(st.integers(0, 7)) == 7}
+    c = {'kind': 'time', 'op': op, 'v': [draw(t)], 'rev': draw(st.integers(0, 7)) == 7}
+    sp = draw(st.integers(0, 9))
+    if sp == 0:
+        c['paren'] = True                        # `ts > (3)`
+    elif sp == 1:
+        c['rev'] = False
+        c['form'] = draw(st.sampled_from(['cast'] + {'>=': ['between-3rd'], '<=': ['between-2nd']}.get(op, [])))
+    return c
 
 
 def pf_conds(col):
@@ -478,7 +556,7 @@ def cases(draw):
             'join': draw(st.sampled_from(['join', 'join', 'join', 'left join', ','])),
             'source': draw(st.sampled_from(['table', 'table', 'table', 'subselect'])),
             'nest': draw(st.sampled_from(['left', 'left', 'right'])),
-            'limit': draw(st.sampled_from([None, None, 1, 2, 3, 5])),
+            'limit': draw(st.sampled_from([None, None, None, 0, 0, 1, 2, 3, 5])),
             'outer_alias': True, 'reject': None}
     conds = []
     tc = draw(time_conds())
@@ -519,6 +597,8 @@ def cases(draw):
         case['data'] = []
     else:
         case['data'] = draw(st.lists(tables(), min_size=1, max_size=3))
+        if draw(st.integers(0, 11)) == 0:
+            case['colnames'] = draw(st.sampled_from(DOTTED))
     return case
 
 
@@ -533,30 +613,53 @@ FIXED = [
 ]
 
 
+# column names that contain a dot (the order column and / or the group columns)
+DOTTED = [{'ts': 'ts.utc'}, {'g': 'my.grp'}, {'ts': 'ts.utc', 'g': 'my.grp', 'h': 'h.part'}]
+
+
 def bounded_space():
     times = [None] + [{'kind': 'time', 'op': op, 'v': [3]} for op in ('>', '>=', '=', '<', '<=')] + \
             [{'kind': 'time', 'op': 'between', 'v': [3, 4]}, {'kind': 'time', 'op': 'in', 'v': [2, 4]},
              {'kind': 'time', 'op': '>latest'}, {'kind': 'time', 'op': '=latest'}]
     base = {'upper_meta': False, 'meta_form': 'list', 'join': 'join', 'nest': 'left', 'outer_alias': True,
             'reject': None}
+    n_plain = len(times)
+    # other spellings of the same conditions: value in parentheses, LATEST first, order column not a bare operand
+    times += [{'kind': 'time', 'op': '>latest', 'paren': True}, {'kind': 'time', 'op': '=latest', 'paren': True},
+              {'kind': 'time', 'op': '>latest', 'rev': True}, {'kind': 'time', 'op': '>latest', 'rev': True, 'paren': True},
+              {'kind': 'time', 'op': '>=', 'v': [3], 'paren': True}, {'kind': 'time', 'op': '=', 'v': [3], 'paren': True}] + \
+             [{'kind': 'time', 'op': op, 'v': [3], 'form': 'cast'} for op in ('>', '>=', '=', '<=')] + \
+             [{'kind': 'time', 'op': '>=', 'v': [3], 'form': 'between-3rd'},
+              {'kind': 'time', 'op': '<=', 'v': [3], 'form': 'between-2nd'}]
     # (1) accepted shapes: table source and the sub-select ("dbt") shape with the conditions inside
     for source in ('table', 'subselect'):
         for groups in ([], ['g'], ['g', 'h']):
             pfl = [None]
             if groups:
                 pfl += [{'kind': 'pf', 'col': 'g', 'op': '=', 'v': [2]}, {'kind': 'pf', 'col': 'g', 'op': 'in', 'v': [1, 2]}]
-            for tc in times:
+            for ti, tc in enumerate(times):
                 for pf in pfl:
                     for window in (1, 2, 3):
                         for left in (False, True):
                             if source == 'subselect' and (window == 2 or (left and window == 3)):
                                 continue            # (model on the left of a sub-select is a known crash)
+                            if ti >= n_plain and (window == 3 or (pf is not None and pf['op'] == 'in')):
+                                continue            # spellings: windows 1, 2 and partition filter none / =
                             conds = [copy.deepcopy(c) for c in (tc, pf) if c is not None]
                             for c in conds:
                                 if source == 'subselect':
                                     c['at'] = 'outer' if c['op'] in ('>latest', '=latest') and window == 3 else 'inner'
                             yield dict(base, window=window, groups=groups, model_left=left, source=source,
-                                       inner_alias=True, limit=2 if left else None, conds=conds, data=FIXED)
+                                       inner_alias=True, limit=(0 if window == 1 else 2) if left else None,
+                                       conds=conds, data=FIXED)
+    # (1b) order / group columns whose names contain a dot: every plain time condition x group columns
+    for colnames in DOTTED:
+        for groups in ([], ['g'], ['g', 'h']):
+            for tc in times[:n_plain]:
+                conds = [copy.deepcopy(c) for c in (tc, {'kind': 'pf', 'col': 'g', 'op': '=', 'v': [1]} if groups else None)
+                         if c is not None]
+                yield dict(base, window=2, groups=groups, model_left=False, source='table', inner_alias=True,
+                           limit=None, conds=conds, data=FIXED[:2], colnames=colnames)
     # (2) rejected shapes: every shape and spelling x group columns x join order x a time condition or none
     for shape in CLAUSE_SHAPES + WHERE_SHAPES:
         for variant in range(len(VARIANTS[shape])):
@@ -564,7 +667,7 @@ def bounded_space():
                 if shape == 'ungrouped-partition-col' and len(groups) == 2:
                     continue
                 for left in (False, True):
-                    for tc in (None, times[1], times[8]):
+                    for tc in (None, times[1], times[8]):           # none, ts > 3, ts > LATEST
                         for source, at in (('table', 'outer'), ('subselect', 'inner'), ('subselect', 'outer')):
                             if source == 'subselect' and left:
                                 continue            # known crash before anything is judged
@@ -582,5 +685,8 @@ def run_shard(col, k, nshards, tier, seed):
     if k == 0:
         col.exhaustive_parts.append('accepted: time operator (10) x partition filter (none,=,IN) x window x group '
                                     'columns ([],[g],[g,h]) x join order x source (table, sub-select), 3 fixed tables; '
+                                    '12 further spellings of the time condition (parenthesised value, LATEST first, '
+                                    'CAST / BETWEEN-bound forms) x windows 1,2; LIMIT 0 / 2; dotted column names x '
+                                    'time operator x group columns; '
                                     'rejected: every shape and spelling x group columns x join order x source')
     hyp.explore(col, cases(), judge, N[tier], seed, shrink_key=lambda r: (r['kind'], r['site'][:40]))
